@@ -368,7 +368,7 @@ type GenReplayFile struct {
 	Engine       string              `json:"engine"`
 	RepoRev      string              `json:"repo_rev"`
 	ShrinkEvals  int                 `json:"shrink_evals"`
-	Directed     *DirectedInput      `json:"directed_input,omitempty"` // set instead of a tape when a committed regression input fails
+	Directed     *DirectedInput      `json:"directed_input,omitempty"`     // set instead of a tape when a committed regression input fails
 	Flaky        string              `json:"schedule_dependent,omitempty"` // set when the tape did not fail again at once (nondeterminism inside the simulated goderive)
 }
 
@@ -519,6 +519,34 @@ func transparencyCheck(ctx *genCtx) {
 		// messages may print addresses (%#v of a go/types value): not part of the behaviour
 		errs[0], errs[1] = hexAddr.ReplaceAllString(errs[0], "0xADDR"), hexAddr.ReplaceAllString(errs[1], "0xADDR")
 		if exits[0] != exits[1] || outs[0] != outs[1] || errs[0] != errs[1] {
+			// before blaming the instrumentation: is the plain binary deterministic by itself?
+			distinct := map[string]bool{outs[0]: true}
+			for rep := 0; rep < 6; rep++ {
+				dir := filepath.Join(ctx.bins.scratch, fmt.Sprintf("transp%d_r%d", i, rep))
+				writeWorld(dir, files)
+				runGoderive(ctx.bins.plain, filepath.Join(dir, "p"), []string{"."}, nil, 0)
+				distinct[derivedFiles(dir)["p/derived.gen.go"]] = true
+				os.RemoveAll(dir)
+			}
+			if len(distinct) > 1 {
+				// the uninstrumented goderive writes different bytes for the same sources on repeated runs:
+				// that is C08's subject; the other properties cannot be judged on such a tree either
+				if ctx.prop == "C08" {
+					path := filepath.Join(replaysDir(), fmt.Sprintf("C08-%d-plain-binary.json", curEvidence.Seed))
+					os.MkdirAll(replaysDir(), 0o755)
+					rf := &GenReplayFile{Property: "C08", Violation: "bytes-differ", Detail: fmt.Sprintf("the uninstrumented goderive wrote %d different derived.gen.go files in 7 runs over the same sources", len(distinct)),
+						Seed: curEvidence.Seed, Run: -1, Directed: &DirectedInput{Versions: []map[string]string{files}}, Engine: "gensim", RepoRev: repoRev(), Flaky: "real map iteration order of the plain binary: replay repeats the run"}
+					bs, _ := json.MarshalIndent(rf, "", " ")
+					os.WriteFile(path, bs, 0o644)
+					curEvidence.Violations++
+					curEvidence.write()
+					fmt.Printf("violation: %s\n", rf.Detail)
+					fmt.Printf("VIOLATION property=C08 replay=%s\n", path)
+					cleanup()
+					os.Exit(1)
+				}
+				harnessTrouble("the uninstrumented goderive is not deterministic on world %d (%d different outputs in 7 runs): see C08; this check cannot be judged on such a tree", i, len(distinct))
+			}
 			harnessTrouble("transparency test failed on world %d: plain exit=%d inst exit=%d; outputs equal=%v; stderr plain=%q inst=%q", i, exits[0], exits[1], outs[0] == outs[1], errs[0], errs[1])
 		}
 		n++
